@@ -83,15 +83,10 @@ func (r *Runtime) builtin_newWeakSet(args []Value, newTarget *Object) *Object {
 				if adderFn == nil {
 					panic(r.NewTypeError("WeakSet.add in missing"))
 				}
-				if stdArr != nil {
-					for _, item := range stdArr.values {
-						adderFn(FunctionCall{This: o, Arguments: []Value{item}})
-					}
-				} else {
-					r.getIterator(arg, nil).iterate(func(item Value) {
-						adderFn(FunctionCall{This: o, Arguments: []Value{item}})
-					})
-				}
+				// (a user-defined add may change the array while it is being iterated: no snapshot)
+				r.getIterator(arg, nil).iterate(func(item Value) {
+					adderFn(FunctionCall{This: o, Arguments: []Value{item}})
+				})
 			}
 		}
 	}
